@@ -124,6 +124,14 @@ func isNilErrorReturn(r *ssa.Return) bool {
 	if cellKnownNonNil(fn, last, r) {
 		return false
 	}
+	// defer-spilled result (`*res = x; rundefers; return *res`): judge x
+	if ld, ok := last.(*ssa.UnOp); ok && ld.Op == token.MUL {
+		if rd := rdOf(fn); rd != nil && !rd.fromEntry[ld] && len(rd.loads[ld]) == 1 {
+			if st, isSt := rd.loads[ld][0].(*ssa.Store); isSt && st.Val != last {
+				last = st.Val
+			}
+		}
+	}
 	may := false
 	valueOrigins(fn, last, func(root ssa.Value) {
 		switch x := root.(type) {
@@ -132,7 +140,7 @@ func isNilErrorReturn(r *ssa.Return) bool {
 				may = true
 			}
 		case *ssa.Call, *ssa.Extract:
-			if cl, ok := root.(*ssa.Call); ok && isCallAny(cl, "errors.New", "fmt.Errorf") {
+			if cl, ok := root.(*ssa.Call); ok && (isCallAny(cl, "errors.New", "fmt.Errorf") || strings.HasSuffix(calleeID(cl), "/errors.New") || strings.HasSuffix(calleeID(cl), "/errors.Errorf")) {
 				return
 			}
 			// known non-nil if the return is dominated by the non-nil edge of a test of this value
